@@ -45,12 +45,15 @@ def _default_for(rng: random.Random, typ: str, nullable: bool) -> tuple[object, 
         lo = 0 if typ.startswith("u") else -(2 ** (int(typ.lstrip("uint")) - 1))
         hi = 2 ** (int(typ.lstrip("uint")) - (0 if typ.startswith("u") else 1)) - 1
         v = rng.choice((0, 1, -1 if lo < 0 else 2, lo, hi, rng.randint(lo, hi)))
-        spelling = rng.choice(("dec", "hex" if v >= 0 else "dec"))
-        return (hex(v) if spelling == "hex" else str(v)), f"default:int:{spelling}"
+        spelling = rng.choice(("dec", "hex" if v >= 0 else "dec", "json-number"))
+        # (upstream reads `default` as a string and Jackson coerces JSON numbers / literals, so 5, true and "TRUE" are accepted spellings)
+        return (hex(v) if spelling == "hex" else v if spelling == "json-number" else str(v)), f"default:int:{spelling}"
     if typ == "bool":
-        return rng.choice(("true", "false")), "default:bool"
+        d = rng.choice(("true", "false", "true", "false", "True", "False", "TRUE", "FALSE", True, False))
+        return d, "default:bool" + ("" if d in ("true", "false") else ":json-literal" if isinstance(d, bool) else ":other-case")
     if typ == "float64":
-        return rng.choice(("0.0", "1.5", "-2.25", "1e10", "0")), "default:float"
+        d = rng.choice(("0.0", "1.5", "-2.25", "1e10", "0", 1.5, -2.25, 0))
+        return d, "default:float" + ("" if isinstance(d, str) else ":json-number")
     if typ == "string":
         return rng.choice(("", "foo", "a b", "it's", "ü", "PLAIN", "DefaultGroup", "Mixed Case 1", "TRUE", "0x1F", "null ")), "default:string"
     return None
